@@ -1,6 +1,7 @@
 package sim
 
 import (
+	"math/bits"
 	"encoding/json"
 	"fmt"
 	"sort"
@@ -290,6 +291,9 @@ func (op HeapOp) src() string {
 	case "insert-index":
 		return set(fmt.Sprintf("(insert-index '%s %s %d %s)", op.Type, v(op.A), op.I, el))
 	case "insert-sorted":
+		if op.FailAt > 0 {
+			return set(fmt.Sprintf("(insert-sorted '%s %s (lambda (a b) (sim:fp 1 (< a b))) %d)", op.Type, v(op.A), op.I))
+		}
 		return set(fmt.Sprintf("(insert-sorted '%s %s < %d)", op.Type, v(op.A), op.I))
 	case "concat":
 		return set(fmt.Sprintf("(concat '%s %s %s)", op.Type, v(op.A), v(op.B)))
@@ -1063,7 +1067,7 @@ func (heapEngine) Gen(r *Rand, tier string) any {
 					op.Desc = r.Bool()
 				}
 				switch op.Kind {
-				case "map-inc", "select", "reject", "sort", "sort-key", "sort-mod":
+				case "map-inc", "select", "reject", "sort", "sort-key", "sort-mod", "insert-sorted":
 					if r.Chance(1, 6) {
 						op.FailAt = r.Range(1, 4)
 					}
@@ -1134,6 +1138,8 @@ func callbackCalls(h *heap, op HeapOp) int {
 		return a.obj.n
 	case "sort":
 		return a.obj.n - 1
+	case "insert-sorted":
+		return bits.Len(uint(a.obj.n)) // probes of a binary search
 	}
 	return 0
 }
